@@ -56,7 +56,7 @@ CHECKS = {
          "Decides the portable generic code only; constants that cannot be decoded make a case 'not judged'.", "3/C14"),
  "C15": ("bitwise before/after comparison of the input + PROT_READ input mappings over enumerated and proptest-drawn well- and ill-shaped immutable calls",
          "Every n<=768/4096 x planners x types x directions x chunk counts 1..8, the ill-shaped immutable shapes, the same range on transforms from planners with history (opposite direction and a multiple planned first), and thousands of structured lengths; half of the cases hold the input in a read-only mapping.",
-         "Also run on the debug-assertion build.", "3/C15"),
+         "Also run on the debug-assertion build and, for n<=160/512, on an unoptimised (opt-level 0) build, where a write through the shared input reference is executed literally instead of being optimised away.", "3/C15"),
 }
 NOT_YET = {}
 CHECKS["C16"] = ("Hypothesis-generated downstream programs (subsets/orders of a 6.4.1 API-use snippet catalogue) with the compiler's type check against /repo (guard off) as the oracle; failures reduced to single snippets",
